@@ -45,12 +45,12 @@ CLAIMED.update({
         ref='DESIGN.md section 5 C01'),
     'C07': dict(
         text='Deductive proof of Reconcile as far as a contract expresses it: both stacks stay strictly positive (so a kept amount is consumed sender by sender, never negative or zero), '
-             'senders and receivers stay balanced, postings equal the non-kept receivers, kept never becomes a posting, inputs are not written.',
+             'senders and receivers stay balanced, postings equal the non-kept receivers, kept never becomes a posting, inputs are not written; pushSender / pushReceiver append at the end and keep the earlier entries (the queues Reconcile pairs are in draw / credit order).',
         note='The exact first-come-first-served pairing order (which sender is paired with which receiver) is NOT proved in general: it needs a positional invariant over two interleaved prefix sums. A BOUNDED stand-in (labelled so in the evidence, never counted as proved) checks it for 2 x 2, 3 x 2 and 2 x 3 senders x receivers with arbitrary names (kept included, so kept amounts spanning two or three sources are covered) and arbitrary amounts against the interval-overlap formula: the harnesses reconcilePairing2x2 / 3x2 / 2x3 (build tag verif) are verified with every loop of Reconcile unrolled up to 8 / 10 / 10 iterations, unwinding assertion included.',
         ref='DESIGN.md section 5 C07'),
     'C08': dict(
         text='Deductive proof of runSaveStatement against the closed formula of the property (whole-view postcondition: the saved pair changes as specified, every other pair is unchanged, '
-             'no posting, negative amount rejected, queues untouched) and of the up-front request of the saved pair.',
+             'no posting, negative amount rejected, queues untouched), of the up-front request of the saved pair, and of the carry into later statements: each posting of getPostings debits its source cell and credits its destination cell by its amount, a self-posting is neutral, no other account moves (loop step assertions).',
         note='That later statements cannot move the saved amount follows from C01\'s leaf contracts over the lowered balance (paper step).',
         ref='DESIGN.md section 5 C08'),
     'C09': dict(
@@ -61,7 +61,7 @@ CLAIMED.update({
     'C10': dict(
         text='Deductive proof, under the stated store contract (A5), that the pre-scan requests every balance that matters (recursive predicate over the source tree, all node kinds), that '
              '@world is never requested (precondition of the store call), that the query asks a superset of what is pending and unknown, that answers are merged without forgetting known '
-             'cells and coherently with the store\'s sheet, and that balance()/overdraft() read a requested cell.',
+             'cells and coherently with the store\'s sheet, and that balance()/overdraft() read a requested cell whose value, when the pair was not cached yet, is the store\'s (getBalance [asked-before-used]).',
         note='Assumed: the store answers from one fixed balance sheet and may omit zero entries / add extra ones (extern contract). The link between the pre-scan and the run-time reads (same expression, same variables) is a paper step.',
         ref='DESIGN.md section 5 C10'),
     'C11': dict(
